@@ -116,7 +116,16 @@ func (templateFam) Exec(c core.CaseIn, rng *rand.Rand, emit func(cas, conc, obs 
 			}
 			args[core.FromCPs(name)] = s
 		}
-		mk = func() snippet.Snippet { return snippet.T(format, args) }
+		if c.ID%2 == 1 {
+			// the same bindings handed over one by one (Arg), with a nil TArg in between, instead of as one Args map
+			var list []snippet.TArg
+			for _, name := range core.SortedKeys(args) {
+				list = append(list, snippet.Arg(name, args[name]), nil)
+			}
+			mk = func() snippet.Snippet { return snippet.T(format, list...) }
+		} else {
+			mk = func() snippet.Snippet { return snippet.T(format, args) }
+		}
 	case "Sprintf":
 		ks, err := kinds()
 		if err != nil {
